@@ -21,12 +21,16 @@ def obligations(tier):
                  ("relativize_errors_extent", "extent unit x origin-y unit x dimensions x fit_to_screen"),
                  ("relativize_errors_padding", "padding unit x origin-x unit x dimensions x fit_to_screen")):
         obs.append(ch(f, "harness.C13_geom", timeout=T, functions=F, exhaustive=True, bounds=b + " (all five units)"))
+    obs.append(ch("relativize_axes", "harness.C13_geom", timeout=T, functions=F + ("Point.as_percentage_of", "Stretch.as_percentage_of", "Padding.as_percentage_of"), exhaustive=True,
+                  bounds="layout with origin, extent and padding, every unit of x, of y and of extent+padding (5^3) x 2 video sizes: each component equals the percentage of its own axis (width / 32 columns horizontally, height / 15 rows vertically) within 0.01"))
+    obs.append(ch("vtt_zero_lengths", "harness.C13_geom", timeout=T, functions=("WebVTTWriter._convert_positioning", "Layout.is_relative", "Size.is_relative"), exhaustive=True,
+                  bounds="zero-valued origin / extent lengths in each of the five units, relativize on/off, dimensions given or not: cue settings contain percentages only"))
     obs.append(ch("vtt_no_absolute", "harness.C13_geom", timeout=T, functions=("WebVTTWriter._convert_positioning",), exhaustive=True,
                   bounds="origin/extent/padding units (5 x 5) x presence of extent, padding, width, height x relativize x fit_to_screen"))
     obs.append(ch("fit_printed", "harness.C13_geom", timeout=T, functions=("Layout.fit_to_screen", "Size.__str__"), exhaustive=True,
                   bounds="two-decimal origins {10, 10.01, 35.5, 89.99, 50} and extents {0.01, 54.5, 79.99, 80, 90, 40} or absent: printed sums"))
     obs.append(ch("writer_fit", "harness.C13_geom", timeout=T, functions=F, exhaustive=True,
-                  bounds="the same region in each of the five units x extent absent / overflowing x origin at 10% or 50% x two video sizes: fit-to-screen must act on the relativized layout"))
+                  bounds="the same region in each of the five units x extent absent / overflowing x origin at 10% or 50% x two video sizes x relativize on / off (off: percent layouts): fit-to-screen must act on the relativized layout"))
     obs.append(ch("vtt_sequence", "harness.C13_geom", timeout=T, functions=("WebVTTWriter._convert_positioning",), exhaustive=True,
                   bounds="a writer with one video size converts a px layout, then a second writer (other size / same size / no size / width only) converts an equal layout"))
     obs.append(ch("dfxp_levels", "harness.C13_geom", timeout=T, functions=("DFXPWriter.write", "RegionCreator", "_convert_layout_to_attributes"), exhaustive=True,
